@@ -23,8 +23,7 @@ returned bucket when more remain); `compositeWalk` is the client loop that sends
   same counts and children), every page but the last is full and carries the key of its last
   bucket as `after_key`, and the last page — also when it is exactly full — carries none.
 * `composite_keys_wf` — the keys the collector builds are well-formed for its sources;
-  `mechanism_pages_partial` — the mechanism's response for `(size, after)` (any segmentation, safe
-  request in the sense of C12) is `compositePage` of one bucket map that does not depend on
+  `mechanism_pages` — the mechanism's response for `(size, after)` (any segmentation) is `compositePage` of one bucket map that does not depend on
   `(size, after)`; `composite_paging_complete` puts the two together.
 
 Tie to the code: `Drv/C30` runs `compositePage`, `afterOfKey`, `Part.lt`; the harness walks
@@ -286,20 +285,6 @@ theorem composite_keys_wf (names : List ν) (srcs : List (CSrc φ)) (hl : names.
     obtain ⟨c, hc, rfl⟩ := hk
     exact ⟨c, rfl, wfKey_combos d names srcs hl c hc⟩
 
-theorem mem_rawBuckets_key (h : StrictTotal (KOrd.lt (κ := κ))) (b : BSpec φ κ)
-    (C : List (Doc φ κ) → List (Node κ)) (docs : List (Doc φ κ)) :
-    ∀ x ∈ rawBuckets b C docs, x.1 ∈ docs.flatMap (keysOf b) ++ extraKeys b := by
-  intro x hx
-  unfold rawBuckets at hx
-  simp only [List.mem_map] at hx
-  obtain ⟨kv, hkv, rfl⟩ := hx
-  have hk := keyLt_strictTotal h
-  have hl := look_of_mem hk (ksorted_keySet hk _) (show (kv.1, kv.2) ∈ _ from hkv)
-  rw [look_keySet hk] at hl
-  by_cases hm : kv.1 ∈ docs.flatMap (keysOf b) ++ extraKeys b
-  · exact hm
-  · simp [hm] at hl
-
 /-- the bucket map all pages of one composite aggregation are cut from: it does not depend on
 `size` and `after` -/
 def compositeMap (srcs : List (CSrc φ)) (subs : Aggs φ κ) (docs : List (Doc φ κ)) : Buckets κ :=
@@ -318,21 +303,17 @@ theorem compositeMap_wf (h : StrictTotal (KOrd.lt (κ := κ))) (names : List ν)
   obtain ⟨d, _, hd⟩ := hm
   exact composite_keys_wf names srcs hl 0 none d x.1 hd
 
-/-- **mechanism_pages (partial: children free of the open date_histogram fill case)** — for every segmentation, the mechanism's response
+/-- **mechanism_pages** — for every segmentation, the mechanism's response
 to the composite request `(size, after)` is the page `compositePage size after` of the one map
 `compositeMap`, whatever `size` and `after` are -/
-theorem mechanism_pages_partial (h : StrictTotal (KOrd.lt (κ := κ))) (srcs : List (CSrc φ))
+theorem mechanism_pages (h : StrictTotal (KOrd.lt (κ := κ))) (srcs : List (CSrc φ))
     (size : Nat) (after : Option (List (Part κ))) (subs : Aggs φ κ)
-    (hs : subs.safe = true)
     (s₀ : List (Doc φ κ)) (rest : List (List (Doc φ κ))) :
     run (.bucket (.composite srcs size after) subs) (s₀ :: rest) =
       some (.buckets (compositePage size after (compositeMap srcs subs (s₀ ++ rest.flatten))).1
                      (compositePage size after (compositeMap srcs subs (s₀ ++ rest.flatten))).2) := by
-  have hb : (BSpec.composite srcs size after : BSpec φ κ).safe = true := rfl
-  have ha : (Agg.bucket (.composite srcs size after) subs).safe = true := by
-    simp only [Agg.safe, hb, hs, Bool.and_self]
-  rw [segmentation_independent_partial h _ ha]
-  simp only [Spec.agg, rawBuckets_ideal hb]
+  rw [segmentation_independent h]
+  simp only [Spec.agg]
   rfl
 
 /-- **C30 for the mechanism (distinct source names)** — the pages obtained
